@@ -369,13 +369,13 @@ def r55(ctx, m):
     ctx.ob('R5.5', 'api.filter_row_groups:flat-list-wrapped-once',
            len(norm_if) == 1 and [norm(x) for x in norm_if[0].body] == ['filters = [filters]'] and not norm_if[0].orelse,
            'a flat list of conditions is one AND group', m.loc(f))
-    comps = [n for n in ast.walk(f) if isinstance(n, ast.ListComp) and any(
-        isinstance(c, ast.Call) and callee(c) == 'any' for i in n.generators for cond in i.ifs for c in ast.walk(cond))]
+    # the selections are what the function returns
+    comps = [r.value for r in ast.walk(f) if isinstance(r, ast.Return) and isinstance(r.value, ast.ListComp)]
     ctx.floor('R5.5', 'selection comprehensions', len(comps), 2)
     shapes = []
     for comp in comps:
         gen = comp.generators[0]
-        cond = gen.ifs[0]
+        cond = gen.ifs[0] if gen.ifs else ast.Constant(value=True)
         ok = isinstance(cond, ast.Call) and callee(cond) == 'any' and len(cond.args) == 1
         inner = cond.args[0] if ok else None
         detail = ''
